@@ -333,6 +333,12 @@ func init() {
 			"Reader.Bytes() and Codec.Decode frames are documented views, not results; what is checked is that decoders fed from them return independent values",
 			"with the verif build, Writer.Release and Utf8ToUcs2Pooled poison (0xA5) the buffer they give back, so a result backed by pooled memory differs from its snapshot at once",
 		},
+		Conclude: func(total *fw.Result) []string {
+			if total.Counters["hook_events/acquire"] == 0 || total.Counters["hook_events/poison"] == 0 {
+				return []string{"the Acquire/Poison hooks produced no event: the pooled-memory monitors observed nothing"}
+			}
+			return nil
+		},
 		Stages: []*fw.Stage{
 			{
 				Name: "histories", N: q(1500, 100000),
